@@ -785,7 +785,11 @@ def expand_fn(rec, fns, known=None):
 def expand_all(fns, known=None):
     report = {}
     for k in sorted(fns):
-        nr, done = expand_fn(fns[k], fns, known)
+        try:
+            nr, done = expand_fn(fns[k], fns, known)
+        except Exception as ex:      # a shape this pass did not foresee: leave the function as the compiler gave it
+            report.setdefault("!errors", []).append((k, repr(ex)[:120]))
+            continue
         if done:
             fns[k] = nr
             report[k] = done
